@@ -34,18 +34,45 @@ def parseRoute (ts : List String) : Option Cand :=
     | [] => none
   | _ => none
 
-/-- `<comm> <anyPeer> <npeers> p… <medP> <med> <lpP> <lp> <addP> <add> <route> <lenP> <lenOp> <len>` repeated -/
+def parsePfxEnts : Nat → List String → List PfxEnt × List String
+  | 0, ts => ([], ts)
+  | n + 1, ts =>
+    match ts with
+    | b :: pl :: lo :: hi :: rest =>
+      let (es, rest') := parsePfxEnts n rest
+      (⟨nat! b, nat! pl, nat! lo, nat! hi⟩ :: es, rest')
+    | _ => ([], [])
+
+def parseAspEnts : Nat → List String → List AspEnt × List String
+  | 0, ts => ([], ts)
+  | n + 1, ts =>
+    match ts with
+    | m :: a :: rest =>
+      let (es, rest') := parseAspEnts n rest
+      (⟨nat! m, nat! a⟩ :: es, rest')
+    | _ => ([], [])
+
+/-- `<ncomm> c… <anyPeer> <npeers> p… <medP> <med> <lpP> <lp> <addP> <add> <route> <lenP> <lenOp> <len>
+     <pfxP> <npfx> (base plen lo hi)… <aspP> <nasp> (mode asn)…` repeated -/
 def parseStmts : Nat → List String → List Stmt
   | 0, _ => []
   | n + 1, ts =>
-    match ts with
-    | comm :: anyP :: rest =>
+    let (comms, rest) := takeList ts
+    match rest with
+    | anyP :: rest =>
       let (peers, rest) := takeList rest
       match rest with
-      | mp :: med :: lpp :: lp :: ap :: add :: route :: lenP :: lenOp :: len :: rest' =>
-        { comm := nat! comm, anyPeer := b! anyP, peers := peers, setMed := optNat mp med,
-          setLp := optNat lpp lp, addComm := optNat ap add, route := nat! route,
-          aspLen := if b! lenP then some (nat! lenOp, nat! len) else none } :: parseStmts n rest'
+      | mp :: med :: lpp :: lp :: ap :: add :: route :: lenP :: lenOp :: len :: pfxP :: npfx :: rest =>
+        let (pes, rest) := parsePfxEnts (nat! npfx) rest
+        match rest with
+        | aspP :: nasp :: rest =>
+          let (aes, rest') := parseAspEnts (nat! nasp) rest
+          { commSet := comms, anyPeer := b! anyP, peers := peers, setMed := optNat mp med,
+            setLp := optNat lpp lp, addComm := optNat ap add, route := nat! route,
+            aspLen := if b! lenP then some (nat! lenOp, nat! len) else none,
+            pfxSet := if b! pfxP then some pes else none,
+            aspSet := if b! aspP then some aes else none } :: parseStmts n rest'
+        | _ => []
       | _ => []
     | _ => []
 
